@@ -19,6 +19,13 @@ pub fn digit4(x: [u8; 4]) -> Result<u16, Error> {
     Ok(x0 * 100 + x1)
 }
 
+/// Parses a decimal integer that spans the whole input.
+///
+/// Unlike `atoi::atoi`, trailing bytes are not ignored: `12abc` is rejected.
+pub fn parse_int<T: std::str::FromStr>(input: &[u8]) -> Option<T> {
+    std::str::from_utf8(input).ok()?.parse::<T>().ok()
+}
+
 pub fn consume<I, O, F>(input: &mut I, f: F) -> Result<O, nom::Err<nom::error::Error<I>>>
 where
     F: FnOnce(I) -> nom::IResult<I, O>,
